@@ -41,16 +41,7 @@ Section Top.
   Qed.
 
   (* ---------- Default::default() ---------- *)
-  Definition lits_typed : bool :=
-    forallb (fun i => match i with
-                      | IStruct fs _ _ =>
-                          forallb (fun f => match lf_dflt f with
-                                            | Some l => well_typed_lit parse_f64 S (erase (lf_ty f)) l
-                                            | None => true
-                                            end) fs
-                      | _ => true
-                      end) (ls_items S).
-  Hypothesis Hwt : lits_typed = true.
+  Hypothesis Hwt : lits_typed parse_f64 S = true.
 
   Let F := efuel S.
   Let PS := proj_n parse_f64 S F.
